@@ -123,9 +123,7 @@ Inductive event :=
 | EAccepted (c k ch : N)    (* a response under key k was verified against the stored challenge ch of c *)
 | EReset (c : N)            (* connection c was (re)opened, disconnected, or its response rejected *)
 | ERemoved (c : N)          (* the stale peer entry c was merged into a reconnection and removed *)
-| EPurged (c : N)           (* the stale peer entry c was purged (remove_disconnected_peers) *)
-| EStale (c ch : N).        (* the connection of entry c was re-opened while challenge ch of its
-                               previous connection stayed stored (static entries only) *)
+| EPurged (c : N).          (* the stale peer entry c was purged (remove_disconnected_peers) *)
 
 (* ---------- maps ---------- *)
 Definition del {V} (k : N) (m : list (N * V)) : list (N * V) :=
@@ -267,9 +265,9 @@ Definition step (g : cfg) (s : state) (a : action)
       let p0 := match aget c (peers s) with Some p => p | None => new_peer end in
       let p1 := set_status p0 Connecting in
       if p_static p1 then
-        (* no handshake is initiated on an outgoing connection, and challenge_for_peer is not touched *)
-        Ok (upd_peers s (aset c p1 (peers s)), [],
-            match p_chal p1 with Some ch => [EStale c ch; EReset c] | None => [EReset c] end)
+        (* no handshake is initiated on an outgoing connection; a challenge stored for the
+           previous connection of the entry is discarded (fix 8a16f73) *)
+        Ok (upd_peers s (aset c (set_chal p1 None) (peers s)), [], [EReset c])
       else
         (* Peer::initiate_handshake *)
         let ch := next s in
